@@ -143,18 +143,19 @@ Definition recv_psnp (s : srv) (i : nat) (l : list (lspid * N * N)) : srv := snp
 Definition refresh_threshold : N := 300.
 Definition default_lifetime : N := 1800.
 
-Fixpoint age (ownsys : N) (t : list (lspid * entry)) : list (lspid * entry) * bool :=
+(* local: the id of the LSP this system originates - only that entry triggers the refresh *)
+Fixpoint age (local : lspid) (t : list (lspid * entry)) : list (lspid * entry) * bool :=
   match t with
   | [] => ([], false)
   | (k, e) :: r =>
-    let (r', req') := age ownsys r in
-    let req := (sys k =? ownsys) && (life e <? refresh_threshold) in
+    let (r', req') := age local r in
+    let req := id_eqb k local && (life e <? refresh_threshold) in
     if life e <=? 1 then (r', req || req')
     else ((k, mkE (seq e) (life e - 1) (srm e) (ssn e)) :: r', req || req')
   end.
 
 Definition tick (s : srv) : srv :=
-  let (d, req) := age (own s) (db s) in
+  let (d, req) := age (local_id s) (db s) in
   mkS (ifs s) (own s) d (counter s) (pending s || req).
 
 (* ---- Server.nextL2SequencenNumber (uint32, skips 0) and lsdb.updateL2LSP *)
